@@ -11,7 +11,8 @@ From Coq Require Import Permutation.
 From Soy Require Import Proofs.SourceTieMsg Proofs.SourceTiePo.
 From Soy Require Import Proofs.MsgIdProofs.
 From Soy Require Import Model.Bytes Model.Outcome Model.Num Model.Values Model.Ast Model.MsgId
-  Model.Escape Model.Interp Model.MsgParts Spec.MsgCat Proofs.MsgPartsProofs Proofs.InterpRelProofs Proofs.InterpPosProofs Proofs.MsgCatProofs.
+  Model.Escape Model.Interp Model.MsgParts Spec.MsgCat Proofs.MsgPartsProofs Proofs.InterpRelProofs Proofs.InterpPosProofs Proofs.MsgCatProofs
+  Proofs.MsgPluralProofs Model.PoFile Proofs.PoFileProofs Model.JsGen Proofs.MsgJsProofs.
 Open Scope N_scope.
 
 (* ------------------------------------------------------------------ *)
@@ -155,6 +156,69 @@ Theorem C11_identity_form : forall w p vn pv pc cv cb dflt strs k src,
   run_items w (map (resolve (dflt ++ cb)) (identity_items src)).
 Proof. exact identity_form. Qed.
 Print Assumptions C11_identity_form.
+
+(* both in one: a PO plural with ANY number of forms (ja 1, en 2, ru 3 ...) under EVERY plural selector
+   renders form plural_index n, its text where that form's translation puts it and its slots filled with
+   the message's placeholders of those names; a selector that points outside the forms is an error *)
+Theorem C11_plural_places_values : forall plural_index bd w mp id p vn pv pc cv cb dflt (trs : list (list titem)) st,
+  vn <> [] \/ length trs <> 1%nat ->
+  bundle_message bd id = Some (new_message vn (map msgstr_of trs)) ->
+  forallb flat_node cb = true -> forallb flat_node dflt = true ->
+  Forall (fun tr => items_named (dflt ++ cb) tr /\ parts_clean (map item_part tr)) trs ->
+  eval_msg plural_index bd w mp id [NMsgPlural p vn pv [NMsgPluralCase pc cv cb] dflt] st =
+  (v <-- eval w pv ;;;
+   match v with
+   | VInt i => match nth_error trs (plural_index i) with
+               | Some tr => run_items w (map (resolve (dflt ++ cb)) tr)
+               | None => fail e_plural_index
+               end
+   | _ => fail e_plural
+   end) st.
+Proof. exact plural_places_values. Qed.
+Print Assumptions C11_plural_places_values.
+
+(* ------------------------------------------------------------------ *)
+(* the JavaScript backend: what soyjs generates for a translated message *)
+(* ------------------------------------------------------------------ *)
+
+(* soyjs resolves the catalogue when it GENERATES code (Model/JsGen.v visit_msg / jeval_parts).  For every
+   generator-walker w: the code for a flat message with a catalogue entry is, in the translation's order, an
+   append statement for every text segment ([write_raw_text]) and the code of the first placeholder of the
+   message carrying the slot's name -- [jrun_items w] over the SAME resolved item list
+   [map (resolve body) tr] over which soyhtml runs [run_items] (C11_translation_places_values).  So the two
+   backends agree on which text and which placeholder code stands where, as a theorem; that the JavaScript
+   generated for a placeholder's code computes what soyhtml prints for it is C04's theorem where C04 covers
+   the code (C04_gen_correct_partial_stmt: raw text, print with directives, ...) and correspondence elsewhere. *)
+Theorem C11_js_translation_places_values : forall o w id body tr msgs,
+  forallb flat_node body = true -> items_named body tr ->
+  parts_clean (map item_part tr) ->
+  o_msgs o = Some msgs -> assoc_n id msgs = Some (jparts_of_cmsg (new_message [] [msgstr_of tr])) ->
+  visit_msg o w id body = jrun_items w (map (resolve body) tr).
+Proof. exact js_translation_places_values. Qed.
+Print Assumptions C11_js_translation_places_values.
+
+(* a PO plural: `switch (soy.$$pluralIndex(<value>))` with one case per msgstr, case i holding the items of
+   form i (any number of forms; the selector is the embedding page's soy.$$pluralIndex) *)
+Theorem C11_js_plural_places_values : forall o w id p vn pv pc cv cb dflt (trs : list (list titem)) msgs,
+  vn <> [] \/ length trs <> 1%nat ->
+  forallb flat_node cb = true -> forallb flat_node dflt = true ->
+  Forall (fun tr => items_named (dflt ++ cb) tr /\ parts_clean (map item_part tr)) trs ->
+  o_msgs o = Some msgs ->
+  assoc_n id msgs = Some (jparts_of_cmsg (new_message vn (map msgstr_of trs))) ->
+  visit_msg o w id [NMsgPlural p vn pv [NMsgPluralCase pc cv cb] dflt] =
+  (jindent ;;; jtxt t_plural_open ;;; w pv ;;; jemit [CText t_plural_close; CText t_nl] ;;;
+   indent_inc ;;;
+   jplural_cases 0 (map (fun tr => jrun_items w (map (resolve (dflt ++ cb)) tr)) trs) ;;;
+   indent_dec ;;; jsln [CText t_rbrace]) ;;; jret tt.
+Proof. exact js_plural_places_values. Qed.
+Print Assumptions C11_js_plural_places_values.
+
+(* no bundle, or no entry: the source is generated *)
+Theorem C11_js_missing_falls_back : forall o w id body,
+  o_msgs o = None \/ (exists msgs, o_msgs o = Some msgs /\ assoc_n id msgs = None) ->
+  visit_msg o w id body = jmsg_children w (msg_size body) body.
+Proof. exact js_missing_falls_back. Qed.
+Print Assumptions C11_js_missing_falls_back.
 
 (* ------------------------------------------------------------------ *)
 (* whole program: the identity (and any partial identity) catalogue     *)
@@ -331,6 +395,82 @@ Proof.
   cbn [okP fold_right ex_template ex_body ex_plural ex_cb ex_dflt ex_name ex_n snd].
   repeat split; try exact ex_ident_flat; try exact ex_ident_plural.
 Qed.
+
+(* three forms (ru): the hypotheses of C11_plural_places_values on the plural of ex_template *)
+Definition ex_ru_trs : list (list titem) :=
+  [[TPh 70 (b "N_2") ex_n; TText (b " soobshchenie")];
+   [TPh 70 (b "N_2") ex_n; TText (b " soobshcheniya")];
+   [TText (b "soobshcheniy: "); TPh 70 (b "N_2") ex_n]].
+Definition ex_bd_ru : bundle := [(6, new_message (b "N_1") (map msgstr_of ex_ru_trs))].
+Example ex_ru_msgstrs : map msgstr_of ex_ru_trs = [b "{N_2} soobshchenie"; b "{N_2} soobshcheniya"; b "soobshcheniy: {N_2}"].
+Proof. vm_compute. reflexivity. Qed.
+Example ex_ru_selector : map plural_russian [1; 2; 5; 11; 21; 22; 25; 111]%Z = [0; 1; 2; 2; 0; 1; 2; 2]%nat.
+Proof. vm_compute. reflexivity. Qed.
+Example ex_ru_three_forms : forall w st,
+  eval_msg plural_russian ex_bd_ru w 45 6 ex_plural st =
+  (v <-- eval w (NDataRef 51 (b "n") []) ;;;
+   match v with
+   | VInt i => match nth_error ex_ru_trs (plural_russian i) with
+               | Some tr => run_items w (map (resolve (ex_dflt ++ ex_cb)) tr)
+               | None => fail e_plural_index
+               end
+   | _ => fail e_plural
+   end) st.
+Proof.
+  intros w st. apply plural_places_values; [left; discriminate|reflexivity|reflexivity|reflexivity|].
+  repeat constructor;
+    try (intros p n bd H; cbn in H; destruct H as [H|[H|[]]]; try discriminate; injection H as <- <- <-;
+         exists 70, ex_n; cbn; tauto);
+    try (vm_compute; repeat split; discriminate).
+Qed.
+
+(* ------------------------------------------------------------------ *)
+(* the PO file: what the extractor / a PO tool writes is what pomsg reads *)
+(* ------------------------------------------------------------------ *)
+
+(* Model/PoFile.v models library code (strconv.Quote / Unquote, robfig/gettext/po writer.quo and
+   scanner.quo, Message.WriteTo's and Parse's quoted fields); is_print stands for strconv.IsPrint on
+   runes >= 0x80 and is arbitrary.  [bytes s]: every element of s is < 256. *)
+
+(* strconv.Unquote inverts strconv.Quote on every byte string: any text, quotes, backslashes, control
+   characters, newlines, invalid UTF-8, non-printable runes *)
+Theorem C11_po_unquote_quote : forall is_print s, bytes s -> go_unquote (po_go_quote is_print s) = Ok s.
+Proof. exact unquote_quote. Qed.
+Print Assumptions C11_po_unquote_quote.
+
+(* scanner.quo reads back what writer.quo wrote -- on one line or, for a value containing a newline, in the
+   multi-line form -- and stops before the next line (reader keyword R, writer keyword R or R followed by a space) *)
+Theorem C11_po_quo_roundtrip : forall is_print R sp val tail e,
+  sp = [] \/ sp = [32] -> bytes val -> no_quote_next tail ->
+  sc_quo R (scan_of (po_quo is_print (R ++ sp) val ++ tail) e) = Ok (val, scan_of tail e).
+Proof. exact sc_quo_po_quo. Qed.
+Print Assumptions C11_po_quo_roundtrip.
+
+(* the quoted fields of an entry: msgctxt (meaning), msgid, msgid_plural and msgstr / msgstr[0..] come back
+   as written, no error flag is raised, and the scanner stands on the blank line after the entry *)
+Theorem C11_po_fields_roundtrip : forall is_print m tail e,
+  fields_bytes m -> blank_next tail ->
+  po_read_fields (scan_of (po_write_fields is_print m ++ tail) e) =
+  Ok ({| pf_ctxt := pf_ctxt m; pf_id := pf_id m; pf_id_plural := pf_id_plural m; pf_str := norm_str m |}, scan_of tail e).
+Proof. exact po_fields_roundtrip. Qed.
+Print Assumptions C11_po_fields_roundtrip.
+
+(* a msgid with quotes, a backslash, a newline (the {\n} command), a tab and a byte that is not UTF-8 *)
+Definition ex_po_id : bstr := b "say " ++ [34] ++ b "hi" ++ [34; 32; 92; 10] ++ b "to {NAME}" ++ [9; 255].
+Definition ex_po_fields : po_fields :=
+  {| pf_ctxt := b "verb"; pf_id := ex_po_id; pf_id_plural := b "{N} times"; pf_str := [ex_po_id; []; b "x"] |}.
+Example ex_po_lines :
+  po_quo (fun _ => true) p_msgid ex_po_id =
+  [b "msgid " ++ [34; 34];
+   [34] ++ b "say " ++ [92; 34] ++ b "hi" ++ [92; 34; 32; 92; 92; 92; 110; 34];
+   [34] ++ b "to {NAME}" ++ [92; 116; 92; 120; 102; 102; 34]].
+Proof. vm_compute. reflexivity. Qed.
+Example ex_po_fields_ok : fields_bytes ex_po_fields /\ blank_next [[]; b "#. next entry"].
+Proof. vm_compute. repeat split; repeat constructor. Qed.
+Example ex_po_roundtrip :
+  po_read_fields (scan_of (po_write_fields (fun _ => false) ex_po_fields ++ [[]; b "#. next entry"]) false) =
+  Ok (ex_po_fields, scan_of [[]; b "#. next entry"] false).
+Proof. vm_compute. reflexivity. Qed.
 
 (* ------------------------------------------------------------------ *)
 (* the pinned code (before the repairs) violates the property           *)
